@@ -1,7 +1,7 @@
 -------------------------------- MODULE Errors --------------------------------
 (***************************************************************************)
 (* C03: how an einx entry point may end.  A record                          *)
-(*   [toks, entry, outcome, edit]                                           *)
+(*   [toks, entry, op, outcome, edit]                                       *)
 (* is one real call: the description as token sequence, the entry point,    *)
 (* the observed outcome class ("ok", an exception class name, or            *)
 (* "False"/"True" for matches) and, for corrupted calls, the kind of        *)
@@ -31,7 +31,33 @@ Documented == {"SyntaxError", "RankError", "AxisSizeError", "SemanticError", "Op
 Values     == {"ok", "True", "False"}
 MustReject == {"dim_changed", "dim_added", "tensor_removed", "tensor_added",
                (* violations of an operation's stated bracket / axis rules *)
-               "dot_axis_in_three_inputs", "sort_with_two_brackets", "coordinate_count_mismatch"}
+               "dot_axis_in_three_inputs", "sort_with_two_brackets", "coordinate_count_mismatch",
+               (* a per-repetition size vector whose number of entries contradicts the rank of the tensor *)
+               "keyword_vector_wrong_count"}
+
+(* The operations' stated bracket rules, decided on the tree Parse.tla assigns to the description (so for EVERY string,
+   also with brackets inside or around an ellipsis, a parenthesis or a concatenation):
+     id, element-wise operations      no brackets in any input or output expression
+     reductions, dot, get_at          no brackets in the output expression
+     shape-preserving operations      the (explicit) output has brackets iff the input has
+   (operations whose elementary signature has only scalar arguments there: einx_from_namedtensor.py:_parse_op.check) *)
+RECURSIVE HasBr(_)
+HasBr(x) == CASE x.k = "axis" -> FALSE
+              [] x.k = "br" -> TRUE
+              [] x.k \in {"flat", "ell"} -> HasBr(x.in)
+              [] OTHER -> \E i \in DOMAIN x.ch : HasBr(x.ch[i])
+NoBrAnywhere == {"id", "add", "less"}
+NoBrInOutput == {"sum", "max", "dot", "get_at"}
+SameBrInOut  == {"softmax", "flip", "sort"}
+BracketRuleBroken(r) ==
+  LET p == Parse(r.toks) IN
+  /\ p.ok
+  /\ LET ins == p.tree.ch[1].ch
+         outs == IF Len(p.tree.ch) > 1 THEN p.tree.ch[2].ch ELSE <<>>
+     IN \/ r.op \in NoBrAnywhere /\ ((\E i \in DOMAIN ins : HasBr(ins[i])) \/ (\E i \in DOMAIN outs : HasBr(outs[i])))
+        \/ r.op \in NoBrInOutput /\ (\E i \in DOMAIN outs : HasBr(outs[i]))
+        \/ r.op \in SameBrInOut /\ Len(ins) = 1 /\ Len(outs) = 1 /\ HasBr(ins[1]) # HasBr(outs[1])
+BracketRules(r)  == BracketRuleBroken(r) => r.outcome \in Documented \cup {"False"}
 
 NoInternal(r)    == r.outcome \in Documented \cup Values
 SyntaxFirst(r)   == ~Parse(r.toks).ok => r.outcome \in {"SyntaxError", "False"}
@@ -42,4 +68,5 @@ Chk == /\ (NoInternal(Recs[tid]) \/ PrintT(<<"INTERNAL", tid>>))
        /\ (SyntaxFirst(Recs[tid]) \/ PrintT(<<"NOTSYNTAX", tid>>))
        /\ (NeverComputed(Recs[tid]) \/ PrintT(<<"COMPUTED", tid>>))
        /\ (NoFalseSyntax(Recs[tid]) \/ PrintT(<<"FALSESYNTAX", tid>>))
+       /\ (BracketRules(Recs[tid]) \/ PrintT(<<"BRACKETRULE", tid>>))
 =============================================================================
